@@ -300,8 +300,10 @@ def gates():
     am = re.search(r"all_msgs\s*=\s*\[(.*?)\]", cargo, re.S)
     allm = sorted(int(x) for x in re.findall(r'"msg(\d+)"', am.group(1)))
     feats = sorted(int(x) for x in re.findall(r"^msg(\d+)\s*=\s*\[\s*\]", cargo, re.M))
+    # message features that enable something else (msgNNNN = [...non-empty...]) are not "selectable on their own"
+    chained = sorted(int(x) for x in re.findall(r"^msg(\d+)\s*=\s*\[\s*[^\]\s][^\]]*\]", cargo, re.M))
     return {"gates": g, "uses": uses, "includes": includes, "include_pairs": [[int(a), int(b)] for a, b in inc_pairs],
-            "rows": [[int(x) for x in r] for r in rows], "all_msgs": allm, "features": feats}
+            "rows": [[int(x) for x in r] for r in rows], "all_msgs": allm, "features": feats, "chained": chained}
 
 
 # ---------------------------------------------------------------- emitters
@@ -367,7 +369,7 @@ def emit_gates_tla(g, path):
     s = ("------------------------------- MODULE Gates -------------------------------\n"
          "(* GENERATED by tools/extract.py from Cargo.toml, src/msg/mod.rs, src/msg/message.rs, src/msg/msg*.rs *)\n"
          "EXTENDS Integers\n"
-         "Features == %s\nAllMsgs == %s\nIncludes == %s\n" % (st(g["features"]), st(g["all_msgs"]), st(g["includes"]))
+         "Features == %s\nAllMsgs == %s\nIncludes == %s\nChained == %s\n" % (st(g["features"]), st(g["all_msgs"]), st(g["includes"]), st(g["chained"]))
          + "IncludePairs == {%s}\n" % ", ".join("<<%d, %d>>" % (a, b) for a, b in g["include_pairs"])
          + "TableRows == {%s}\n" % ", ".join("<<%d, %d, %d, %d>>" % tuple(r) for r in g["rows"])
          + "GateList == <<\n" + gl + "\n>>\nUsesList == <<\n" + ul + "\n>>\n"
